@@ -62,7 +62,12 @@ def run_rows(pid, spec, prefixes, ctxs=CTXS_DEFAULT, regs_fn=None, prep_kw=None,
         itpos = 'out' if kind == 'arm' else (itpos_fn(rng) if itpos_fn else rng.choice(['out', 'out', 'mid', 'last']))
         regs = regs_fn(rng) if regs_fn else [M.rand32(rng) for _ in range(15)]
         kw = dict(prep_kw(rng) if prep_kw else {})
+        kw.setdefault('e', 1 if rng.random() < 0.25 else 0)       # CPSR.E: every family that touches memory sees both
         desc = scen.prepare(ctx, rng, kind, w, mode=mode, itpos=itpos, ns=ns, regs=regs, **kw)
+        if mode == 'mon' and rng.random() < 0.25:
+            ctx.cpu.registers.scr.ns = 1      # Monitor mode with SCR.NS = 1 (as set before a return to Non-secure state)
+            desc['ns'] = 1
+            desc['mon_ns1'] = True
         if after:
             after(ctx, rng, desc)
         ls.res['sets']['contexts'].add('%s/%s/%s' % (ctxkey[0], mode, kind))
